@@ -39,6 +39,8 @@ def run(check: Check, repo: Repo, tier: str) -> None:
     X.abort_callback(check, repo)
     X.handover_owner(check, repo)
     X.nulled_work_aborted(check, repo)
+    X.work_always_collected(check, repo)
+    X.once_flag_first(check, repo)
     X.hook_after_drain(check, repo)
     X.advance_close_same_object(check, repo)
     X.cleanup_settles_pending(check, repo)
